@@ -346,6 +346,9 @@ class WsWorld:
         chunk = pipe.take(k)
         if pipe.buf:
             self.run.probe("split-delivery")
+        self.deliver_chunk(pipe, rcv, chunk)
+
+    def deliver_chunk(self, pipe, rcv, chunk):
         self.run.log("deliver", pipe.name, len(chunk), short(chunk))
         rcv.on_delivered(chunk)
         self.fw.deliver(self, rcv.t, chunk)
@@ -426,9 +429,7 @@ class WsWorld:
                 t = rcv.t
                 if pipe.buf and t.can_read():
                     chunk = pipe.take(len(pipe.buf))
-                    self.run.log("deliver", pipe.name, len(chunk), short(chunk))
-                    rcv.on_delivered(chunk)
-                    self.fw.deliver(self, t, chunk)
+                    self.deliver_chunk(pipe, rcv, chunk)
                     progressed = True
                 elif not t.is_gone():
                     if pipe.fin and not pipe.buf and t.can_read():
